@@ -221,12 +221,6 @@ class Gen:
             b = self.num(sc, depth - 1) if risky else self.literal(self.pick([I, I, L, S]))
             if not risky and b[0] == 1 and b[1][1] == 0:
                 b = lit(I, 3)
-            if op == 5 and not self.f.get('idivfloat'):
-                # x \\ y with a float operand is statically mistyped by qbee (probed separately)
-                if sty(a, self.p) not in (I, L):
-                    a = builtin(4, a)
-                if sty(b, self.p) not in (I, L):
-                    b = builtin(4, b)
         elif k < 0.60:
             op = 7
             a = self.num(sc, depth - 1, self.pick([S, D]))
@@ -254,6 +248,12 @@ class Gen:
                 a = builtin(1, a)       # ABS(..) is not folded
         elif self.is_const(a) and self.is_const(b):
             self.hazards.append('const-expr')
+        if op == 5 and not self.f.get('idivfloat'):
+            # x \\ y with a float operand is statically mistyped by qbee (probed separately)
+            if sty(a, self.p) not in (I, L):
+                a = builtin(4, a)
+            if sty(b, self.p) not in (I, L):
+                b = builtin(4, b)
         return bin_(op, a, b)
 
     def num_builtin(self, sc, depth):
